@@ -176,8 +176,8 @@ theorem reorder_commutes (c : Nat) (perm : List Nat) (comp : Option Nat) (drv : 
     simp only [Schema.mk.injEq]
     constructor
     · rw [List.filter_map, List.map_map, List.map_map]
-      have hpar : ((fun (c_1 : Class) => inScope d.containers comp c_1.parent) ∘ roG c perm) =
-          (fun (c_1 : Class) => inScope d.containers comp c_1.parent) := by
+      have hpar : ((fun (c_1 : Class) => inScope d.containers d.pkgrefs comp c_1.parent) ∘ roG c perm) =
+          (fun (c_1 : Class) => inScope d.containers d.pkgrefs comp c_1.parent) := by
         funext k; simp only [Function.comp]; unfold roG; split <;> rfl
       rw [hpar]
       apply List.map_congr_left
@@ -589,8 +589,8 @@ theorem retype_commutes (c a dt : Nat) (comp : Option Nat) (drv : Bool)
           simp only [Schema.mk.injEq]
           constructor
           · rw [List.filter_map, List.map_map, List.map_map]
-            have hpar : ((fun (c_1 : Class) => inScope d.containers comp c_1.parent) ∘ rtG c a dt) =
-                (fun (c_1 : Class) => inScope d.containers comp c_1.parent) := by
+            have hpar : ((fun (c_1 : Class) => inScope d.containers d.pkgrefs comp c_1.parent) ∘ rtG c a dt) =
+                (fun (c_1 : Class) => inScope d.containers d.pkgrefs comp c_1.parent) := by
               funext k; simp only [Function.comp]; unfold rtG; split <;> rfl
             rw [hpar]
             apply List.map_congr_left
